@@ -6,6 +6,7 @@ package c11
 import (
 	"encoding/json"
 	"fmt"
+	"github.com/emitter-io/emitter/internal/message"
 	"net/http/httptest"
 	"net/url"
 	"regexp"
@@ -78,7 +79,7 @@ func getEnv(v int) *env {
 	if e, ok := envs[v]; ok {
 		return e
 	}
-	b, err := vkit.NewBroker(vkit.BrokerOpts{LicVersion: v, Node: fmt.Sprintf("00:00:00:00:01:0%d", v)})
+	b, err := vkit.NewBroker(vkit.BrokerOpts{LicVersion: v, Node: fmt.Sprintf("00:00:00:00:01:0%d", v), Storage: "inmemory"})
 	if err != nil {
 		panic(err)
 	}
@@ -446,6 +447,24 @@ func TestExtendableUnusable(t *testing.T) {
 			if !refused {
 				vkit.ReportFailure(t.Name(), c, fmt.Sprintf("an extendable key (perms %08b) was accepted for PUBLISH", p), "")
 				t.Fatalf("extendable key publishes")
+			}
+			// ... and a refused publish leaves nothing in the message history either (ttl option and retain flag)
+			if p&security.AllowWrite != 0 {
+				payload := fmt.Sprintf("ext-%d-%d", v, mask)
+				if _, err := e.cl.Publish(8, enc+"/a/?ttl=3600", []byte(payload), true); err != nil {
+					t.Fatal(err)
+				}
+				ch := security.ParseChannel([]byte("k/a/"))
+				msgs, err := e.b.S.VerifStorage().Query(message.NewSsid(e.b.Lic.Contract(), ch.Query), time.Unix(0, 0), time.Unix(0, 0), nil, 100000)
+				if err != nil {
+					t.Fatal(err)
+				}
+				for _, m := range msgs {
+					if string(m.Payload) == payload {
+						vkit.ReportFailure(t.Name(), c, fmt.Sprintf("a PUBLISH with an extendable key (perms %08b, ttl option and retain flag) was refused but its message is in the history of a/: later subscribers are replayed it", p), "")
+						t.Fatalf("extendable key publishes into history")
+					}
+				}
 			}
 			// ... nor through a link shortcut: neither by the auto-subscribe of the link request nor by publishing through the shortcut
 			if p&security.AllowRead != 0 && mask%8 == 1 {
